@@ -57,6 +57,9 @@ type vScenario struct {
 	Peer      [][]interface{} `json:"peer"` // ["send",n] ["close"] ["rst"] ["drain",n] ["shutwr"]
 	SndBuf    int             `json:"sndbuf"`
 	LateReq   bool            `json:"latereq"` // client: SetOnRequest is an actor op instead of an option
+	// the plan starts once the connection is accepted and every actor stands in front of its first operation (set-up is driven
+	// deterministically); the projection of the output hand-off is logged after every step (conformance with FlushProto.tla)
+	HoldSetup bool `json:"holdsetup"`
 	// timers fire as readily as any other step (default: rarely while anything else can move - a timeout is normally far away)
 	EagerTimers bool `json:"eagertimers"`
 }
@@ -618,6 +621,29 @@ func vRunConnScenario(sc *vScenario) (out []vOutEvent, info map[string]interface
 			r.ev("PeerDrain", "", got, ok, "")
 		}
 	})
+	if sc.HoldSetup {
+		s.holdPrefer = []string{"acceptor"}
+		s.holdUntil = func() bool {
+			if !r.accepted() {
+				return false
+			}
+			s.mu.Lock()
+			defer s.mu.Unlock()
+			for _, a := range s.list {
+				if a.state == vStParked && (a.gate.pt == vpxStart || a.gate.pt == vpxBlockUntil) {
+					return false
+				}
+			}
+			return true
+		}
+		s.projFn = func() []int32 {
+			tick := 0
+			if c.writeTimer != nil {
+				tick = len(c.writeTimer.C)
+			}
+			return []int32{vLoad32(&c.keychain[flushing]), int32(len(c.writeTrigger)), int32(r.outLen()), int32(r.peerPending()), int32(tick)}
+		}
+	}
 	s.AddTimerEnv("rtimer", c, false, 2)
 	s.AddTimerEnv("wtimer", c, true, 2)
 	if sc.EagerTimers {
@@ -680,6 +706,10 @@ func vRunConnScenario(sc *vScenario) (out []vOutEvent, info map[string]interface
 	info["stalled"] = s.stalled
 	info["stuck"] = s.stuck
 	info["deadlock"] = s.deadlock
+	if sc.HoldSetup {
+		info["hold"] = s.holdSteps
+		info["proj"] = s.projLog
+	}
 	mp.close()
 	return r.out, info
 }
